@@ -214,6 +214,16 @@ def dump_table(repo, ci, _depth=0):
     dname = None
     inline_inits = []
     for r in rets:
+        # `return dict(D), ctx` / `return D.copy(), ctx` / `return copy(D), ctx`: a copy of the dictionary D that was filled
+        if isinstance(r.expr, ast.Tuple) and len(r.expr.elts) == 2 and isinstance(r.expr.elts[0], ast.Call):
+            c0 = r.expr.elts[0]
+            inner = None
+            if call_name(c0) in ("dict", "copy", "deepcopy", "OrderedDict") and isinstance(c0.func, ast.Name) and len(c0.args) == 1 and not c0.keywords and isinstance(c0.args[0], ast.Name):
+                inner = c0.args[0]
+            elif call_name(c0) == "copy" and isinstance(c0.func, ast.Attribute) and isinstance(c0.func.value, ast.Name) and not c0.args:
+                inner = c0.func.value
+            if inner is not None:
+                r = type("R", (), {"expr": ast.Tuple(elts=[inner, r.expr.elts[1]], ctx=ast.Load()), "stmt": r.stmt, "kind": "return"})()
         if isinstance(r.expr, ast.Tuple) and len(r.expr.elts) == 2 and len(rets) == 1 and \
                 (isinstance(r.expr.elts[0], (ast.Dict, ast.DictComp)) or (isinstance(r.expr.elts[0], ast.Call) and call_name(r.expr.elts[0]) == "dict")):
             # `return {...}, ctx`: the dictionary is built in the return statement itself
@@ -507,6 +517,10 @@ def restore_table(repo, ci):
                 for t in tg:
                     if isinstance(t, ast.Attribute) and isinstance(t.value, ast.Name) and t.value.id in objnames:
                         if id(n.stmt) in handler_nodes:
+                            continue
+                        # `obj.x = int(obj.x)` / `obj.x = list(obj.x)`: a normalisation of what is already there, not a restore
+                        if any(isinstance(x, ast.Attribute) and x.attr == t.attr and isinstance(x.value, ast.Name) and x.value.id == t.value.id
+                               for x in ast.walk(n.stmt.value)) and not any(isinstance(x, ast.Name) and x.id == dparam for x in ast.walk(n.stmt.value)):
                             continue
                         keys, build = _keys_in(deep_expand(fl, n.stmt.value, n), dparam)
                         R.sinks.append(("attr", t.attr, keys, build, f, n.stmt))
